@@ -279,14 +279,26 @@ func (r *c09Run) faultyHeight(cell c09Cell, reqs *world.Requests) bool {
 			return true
 		case errors.As(ferr, &cr):
 			c.Count("end_block_faults_aborted_the_block", 1)
-			// CometBFT halts; the operator restarts the node: nothing of the block may have persisted
-			nn, err := n.Restart()
-			if err != nil {
-				c.Inconclusive("restart: %v", err)
-				return false
+			if h%2 == 0 {
+				// CometBFT halts; the operator restarts the node: nothing of the block may have persisted
+				nn, err := n.Restart()
+				if err != nil {
+					c.Inconclusive("restart: %v", err)
+					return false
+				}
+				ch.Nodes[0] = nn
+				untouched("finalising (after restart from disk)")
+			} else {
+				// the application keeps running (it may be a process of its own) and is handed the block again: the proposal
+				// is checked once more, which also resets the SDK's block state, then finalised. Nothing the failed attempt
+				// left in memory may change the outcome.
+				c.Count("end_block_faults_retried_in_the_same_process", 1)
+				untouched("finalising (same process)")
+				if ok, _ := ch.Process(0, 0, h, t, txs, lc, nil); !ok {
+					r.viol("the honest proposal was rejected when the block was retried after an engine fault at the end of the block", fmt.Sprintf("fault %s/%s", cell.Site, cell.Kind))
+					return false
+				}
 			}
-			ch.Nodes[0] = nn
-			untouched("finalising (after restart from disk)")
 		default:
 			c.Inconclusive("finalize: %v", ferr)
 			return false
